@@ -104,7 +104,7 @@ static int run_case(const struct ecimpl *im, int len, int k, int rows, int soff,
 
 /* (e) long blocks: loop counters and offsets beyond 64 KiB and 1 MiB (k = 3, the kernel's natural row count), xorshift data,
  * expected values computed on the fly from the reference multiplication table */
-static void run_big(const struct ecimpl *im, int len, int w)
+static void run_big(const struct ecimpl *im, int len, int w, int start_aligned)
 {
 	char key[256];
 	int k = 3, rows = w;
@@ -115,11 +115,11 @@ static void run_big(const struct ecimpl *im, int len, int w)
 		A[i] = (uint8_t)(0x53 + i * 29);
 	ec_tables(im, k, rows, A, tbl);
 	for (int i = 0; i < k; i++) {
-		src[i] = g_alloc(len, G_END);
+		src[i] = start_aligned ? g_alloc_off(len, 0) : g_alloc(len, G_END);
 		fill_xorshift(src[i], len, 1000 + i);
 	}
 	for (int r = 0; r < rows; r++) {
-		dst[r] = g_alloc(len, G_END);
+		dst[r] = start_aligned ? g_alloc_off(len, 0) : g_alloc(len, G_END);
 		memset(dst[r], 0xAA, len);
 	}
 	uint8_t **srcv = g_alloc(k * sizeof(uint8_t *), G_END), **dstv = g_alloc(rows * sizeof(uint8_t *), G_END);
@@ -247,14 +247,15 @@ int main(int argc, char **argv)
 				}
 		/* (e) long blocks */
 		{
-			static const int bigl[] = { 65536 + 17, (1 << 20) + 33, (1 << 24) + 65 };
-			for (int bi = 0; bi < (v_thorough ? 3 : 2); bi++)
-				if (v_mine(unit++)) {
-					if (v_deadline_hit() || nfail > 60)
-						goto out;
-					run_big(im, bigl[bi], w);
-					v_nontrivial(v_mix(ii + 4000, bi));
-				}
+			static const int bigl[] = { 65536 + 17, (1 << 20) + 33, 1 << 20, (1 << 20) + 64, (1 << 24) + 65 };
+			for (int bi = 0; bi < (v_thorough ? 5 : 4); bi++)
+				for (int sa = 0; sa < 2; sa++)
+					if (v_mine(unit++)) {
+						if (v_deadline_hit() || nfail > 60)
+							goto out;
+						run_big(im, bigl[bi], w, sa); /* blocks ending at a guard page / starting on a page boundary */
+						v_nontrivial(v_mix(ii + 4000, bi * 2 + sa));
+					}
 		}
 		/* (d) the complete multiplication table through this kernel: k=1, c=0..255, every byte value in main loop and tail */
 		if (v_mine(unit++)) {
